@@ -116,7 +116,7 @@ def run(chk, facts_dir, tier):
                     chk.ok("R23.6", "%s: hash(key) %% %s" % ((b.root or b.path).split("::")[-1][:30], d[-30:]), b.where(s["line"]))
                 else:
                     chk.fail("R23.6", b.root or b.path, "routing-kernel", "a partition is derived from a key's hash by `%s %s` instead of `%% partition count`" % (rv["o"], d[:40]), b, s["line"])
-    chk.floor("R23.6", n_rt, 8)
+    chk.floor("R23.6", n_rt, 5)
 
     # ---------------- R23.7
     tn = "sierradb::database::Transaction::new"
